@@ -124,6 +124,11 @@ class Analysis:
             if isinstance(c, ast.Call) and dotted(c.func) in ('list', 'sorted', 'tuple') and len(c.args) == 1:
                 c = c.args[0]
             return self.container(c, st, unit)
+        if isinstance(e, ast.Call) and dotted(e.func) in ('next', 'min', 'max') and e.args and self.container(e.args[0], st, unit):
+            # an element taken out of a collection of lower-cased names: next(iter(C)), min(C) (a default, if any, must be normalised too)
+            return all(self.lowered(a, st, unit) for a in e.args[1:])
+        if isinstance(e, ast.Call) and isinstance(e.func, ast.Attribute) and e.func.attr == 'pop' and self.container(e.func.value, st, unit):
+            return all(self.lowered(a, st, unit) or isinstance(a, ast.Constant) for a in e.args[1:])
         if isinstance(e, ast.Call):
             r = self.call_ret(e, unit)
             if r is not None:
@@ -146,6 +151,8 @@ class Analysis:
                 return self.dict_norm.get((tag[1], c.slice.value), False)
         if isinstance(c, ast.Call) and isinstance(c.func, ast.Attribute) and c.func.attr == 'keys' and is_catalog(c.func.value):
             return True
+        if isinstance(c, ast.Call) and dotted(c.func) in ('iter', 'list', 'sorted', 'set', 'tuple', 'frozenset', 'reversed') and len(c.args) == 1:
+            return self.container(c.args[0], st, unit)
         return False
 
     def call_ret(self, call, unit):
